@@ -31,6 +31,16 @@ pub fn run(op: &str, v: &Value) -> Value {
             json!({"std": std, "anc": anc, "tankan": tankan, "std_keys": std_keys, "anc_keys": anc_keys, "tankan_keys": tankan_keys,
                    "std_words": d.graph.standard_dic.values().map(|v| v.len()).sum::<usize>(), "bytes": bytes.len()})
         }
+        // a frequency.bin holding the given learned entries (context json, word, count, last occurrence in ms)
+        #[cfg(chokan_verif)]
+        "srv_freq_bin" => {
+            let entries: Vec<(kkc::context::Context, String, u64, i64)> = v["entries"].as_array().unwrap().iter().map(|e| {
+                (serde_json::from_value(e[0].clone()).unwrap(), e[1].as_str().unwrap().to_string(), e[2].as_u64().unwrap(), e[3].as_i64().unwrap())
+            }).collect();
+            let f = kkc::frequency::ConversionFrequency::verif_from_entries(&entries);
+            std::fs::write(v["path"].as_str().unwrap(), postcard::to_allocvec(&f).unwrap()).unwrap();
+            json!({"ok": true})
+        }
         _ => json!({"error": "unknown srv op"}),
     }
 }
